@@ -242,6 +242,8 @@ def judge(rep, pa, enc, batch, nregs, every):
         metas.append((ops, tr))
     outs = run_model(lines)
     for (ops, tr), out in zip(metas, outs):
+        for o in ops:
+            rep.count("op=" + o[0])
         rep.case(sample={"ops": [list(map(str, o)) for o in ops[:6]], "agree": out == tr} if len(ops) <= 8 or len(rep.samples) < 3 else None,
                  nontrivial_key=repr(ops) if nontrivial(ops) else None)
         if out != tr:
